@@ -84,6 +84,23 @@ class CountingStream(io.BytesIO):
 _lib = {}
 
 
+
+def arm_flags(case, le):
+    """e_flags of the ARM images: EABI version 5 plus, decided by the content of the case, the flags that describe the *code* and say nothing
+    about how tables are stored - BE8 (big-endian data, little-endian instructions: how big-endian ARMv6+ images are linked), LE8, the
+    float ABI.  Attribute sections and unwind tables are data in the byte order of the file whatever these flags are."""
+    import zlib
+    h = zlib.crc32(repr(sorted((k, repr(v)) for k, v in case.items())).encode())
+    f = 0x5000000
+    if h & 1:
+        f |= 0x00400000 if le else 0x00800000
+    if h & 6 == 2:
+        f |= 0x400
+    elif h & 6 == 4:
+        f |= 0x200
+    return f
+
+
 def lib():
     if not _lib:
         from elftools.elf.elffile import ELFFile
@@ -214,7 +231,7 @@ def build_attr_elf(case):
     order = [['ph', 1, 2, 3, 'sh'], [2, 1, 3, 'sh', 'ph'], ['sh', 3, 1, 2, 'ph'], [3, 2, 'sh', 1]][case.get('order', 0)]
     m = {'cls': cls, 'le': case['le'], 'e_type': case.get('et', 1), 'e_machine': EM_ARM if arch == 'arm' else EM_RISCV,
          'sections': secs, 'shstrndx': 3, 'order': order, 'tail': case.get('tail', 0),
-         'e_flags': 0x5000000 if arch == 'arm' else 0}
+         'e_flags': arm_flags(case, case['le']) if arch == 'arm' else 0}
     data, R = W.build(m)
     return data, R, exp
 
@@ -864,7 +881,7 @@ def build_exidx_elf(case):
         order = ['ph'] + body + [1, stri, 'sh']
     elif case.get('order') == 2:
         order = ['sh', stri] + body + [1, 'ph']
-    m = {'cls': 32, 'le': le, 'e_type': case.get('et', 3), 'e_machine': EM_ARM, 'e_flags': 0x5000000, 'sections': secs,
+    m = {'cls': 32, 'le': le, 'e_type': case.get('et', 3), 'e_machine': EM_ARM, 'e_flags': arm_flags(case, le), 'sections': secs,
          'shstrndx': stri, 'order': order,
          'segments': [{'p_type': 1, 'p_flags': 5, 'p_offset': 0, 'p_vaddr': 0, 'p_paddr': 0, 'p_filesz': ['file_len', 0],
                        'p_memsz': ['file_len', 0], 'p_align': 0x1000},
